@@ -45,6 +45,12 @@ def scripts():
             if "clock(" in src:
                 continue
             out.append((os.path.relpath(f, SCRIPTS_DIR), src))
+        # boundary-value scripts of our own (huge ranges, shifts, call depth at the frame limit, 255-entry literals, UTF-8
+        # boundaries, assignments to undeclared globals, fiber switches inside finally): no expected output, only compared across builds
+        extra = os.path.join(os.path.dirname(os.path.abspath(__file__)), "c10_extra")
+        for f in sorted(glob.glob(os.path.join(extra, "*.yl"))):
+            with open(f) as fh:
+                out.append(("c10_extra/" + os.path.basename(f), fh.read()))
         _scripts = (out, mods)
     return _scripts
 
@@ -128,7 +134,7 @@ class C10:
     ID = "C10"
     LEVEL = "exploration"
     TIMEOUT = 40.0
-    RULE = ("case = either one script of the repository's test corpus (all of them, every run; printed text and outcome compared, addresses "
+    RULE = ("case = either one script of the repository's test corpus or of 7 boundary-value scripts of our own (all of them, every run; printed text and outcome compared, addresses "
             "normalised) or one generated scenario of the C08/C09/C12/C14/C15/C16/C01 generators (program(s) + decision tape + fault plan "
             "+ simulated file system); every case is executed in each build configuration of the tier and its typed event history, "
             "outcome kind and error messages must equal those of the checked build. non-trivial = the history has >= 3 events; "
